@@ -154,58 +154,105 @@ theorem C08_recovery_fs {fs0 : FS} {r : FPath} {ld : List (FPath × Node)} {src 
 
 /-! ### every crash point (entry granularity) -/
 
-/-- what a second run achieves from a destination state `fsk`, given any complete, parents-first listing of it -/
-def Repairs (fs0 fsk : FS) (r : FPath) (src : FPath → Option SEntry) (ls : List (FPath × SEntry)) : Prop :=
+/-- what a second run achieves from a destination state `fsk`, given any listing of it that is complete for what the
+filters let through (`vis`) and parents-first -/
+def Repairs (vis : FPath → Bool) (fs0 fsk : FS) (r : FPath) (src : FPath → Option SEntry) (ls : List (FPath × SEntry)) : Prop :=
   ∀ ld' : List (FPath × Node),
-    (∀ p n, (p, n) ∈ ld' ↔ (p ≠ [] ∧ fsk.get (r ++ p) = some n)) → ld'.Pairwise (fun a b => ¬ b.1 <+: a.1) →
+    (∀ p n, (p, n) ∈ ld' ↔ (p ≠ [] ∧ vis p = true ∧ fsk.get (r ++ p) = some n)) → ld'.Pairwise (fun a b => ¬ b.1 <+: a.1) →
     ∃ fs', syncDest fsk r src ls ld' = .ok fs' ∧
       (∀ q, ¬ r <+: q → fs'.get q = fs0.get q) ∧
-      ∀ p, p ≠ [] → MirrorAt fsk fs' r p (src p)
+      (∀ p, p ≠ [] → vis p = true → MirrorAt fsk fs' r p (src p)) ∧
+      (∀ p, vis p = false → fs'.get (r ++ p) = fsk.get (r ++ p))
 
-theorem repairs_of_closed {fs0 fsk : FS} {r : FPath} {src : FPath → Option SEntry} {ls : List (FPath × SEntry)}
-    (hs : SrcWF (fun _ => true) src ls)
+theorem repairs_of_closed {vis : FPath → Bool} {fs0 fsk : FS} {r : FPath} {src : FPath → Option SEntry} {ls : List (FPath × SEntry)}
+    (hs : SrcWF vis src ls)
     (hroot : fsk.get r = some .folder) (hanc : ∀ k, k < r.length → fsk.get (r.take k) = some .folder)
     (hclosed : ∀ p, p ≠ [] → fsk.get (r ++ p) ≠ none → fsk.get (r ++ p.dropLast) = some .folder)
-    (hout : ∀ q, ¬ r <+: q → fsk.get q = fs0.get q) : Repairs fs0 fsk r src ls := by
+    (hout : ∀ q, ¬ r <+: q → fsk.get q = fs0.get q)
+    (hsafe' : ∀ p c n, p ≠ [] → vis p = true → fsk.get (r ++ p) = some Node.folder → src p ≠ some .folder →
+      fsk.get (r ++ (p ++ [c])) = some n → vis (p ++ [c]) = true) : Repairs vis fs0 fsk r src ls := by
   intro ld' hl hpf
-  have hw' : DestWF (fun _ => true) fsk r ld' :=
-    ⟨hroot, hanc, hclosed, fun p n => by rw [hl p n]; simp, hpf⟩
-  obtain ⟨fs', h1, h2, -, h4, -⟩ := sync_mirror hw' hs (fun _ _ _ _ _ => rfl)
-  exact ⟨fs', h1, fun q hq => by rw [h2 q hq, hout q hq], fun p hp => h4 p hp rfl⟩
+  have hw' : DestWF vis fsk r ld' := ⟨hroot, hanc, hclosed, hl, hpf⟩
+  have hsafe'' : ∀ p c n, (p, Node.folder) ∈ planDel src ld' → fsk.get (r ++ (p ++ [c])) = some n → vis (p ++ [c]) = true := by
+    intro p c n hmem hc
+    obtain ⟨h1, h2⟩ := mem_planDel.mp hmem
+    obtain ⟨hne, hv, hg⟩ := (hl p .folder).mp h1
+    apply hsafe' p c n hne hv hg ?_ hc
+    intro e
+    simp [needDel, e, compatible] at h2
+  obtain ⟨fs', h1, h2, -, h4, h5⟩ := sync_mirror hw' hs hsafe''
+  exact ⟨fs', h1, fun q hq => by rw [h2 q hq, hout q hq], h4, h5⟩
 
-/-- **Recovery from a crash anywhere in the delete phase**: after *any* prefix `done` of the planned deletions — the
-state a crash, a lost link or a failing later call leaves behind — the calls made so far all succeeded, and from the state
-they left a second run (on any complete, parents-first listing of that state) ends `ok` in the mirror of the source,
-changing nothing outside the root. -/
-theorem C08_recovery_from_crash_in_delete_phase {fs0 : FS} {r : FPath} {ld : List (FPath × Node)} {src : FPath → Option SEntry}
-    {ls : List (FPath × SEntry)} (hw : DestWF (fun _ => true) fs0 r ld) (hs : SrcWF (fun _ => true) src ls)
+/-- **Recovery from a crash anywhere in the delete phase** (with any filters): after *any* prefix `done` of the planned
+deletions — the state a crash, a lost link or a failing later call leaves behind — the calls made so far all succeeded, and
+from the state they left a second run (on any listing of that state that is complete for what the filters let through and
+parents-first) ends `ok`, mirrors the source at every visible path, leaves every hidden path as it is and changes nothing
+outside the root. -/
+theorem C08_recovery_from_crash_in_delete_phase {vis : FPath → Bool} {fs0 : FS} {r : FPath} {ld : List (FPath × Node)}
+    {src : FPath → Option SEntry} {ls : List (FPath × SEntry)} (hw : DestWF vis fs0 r ld) (hs : SrcWF vis src ls)
+    (hsafe : ∀ p c n, (p, Node.folder) ∈ planDel src ld → fs0.get (r ++ (p ++ [c])) = some n → vis (p ++ [c]) = true)
     (done rest : List (FPath × Node)) (hsplit : planDel src ld = done ++ rest) :
-    ∃ fsk, runOps (fun f x => delOp f r x) fs0 done = .ok fsk ∧ Repairs fs0 fsk r src ls := by
-  have hsafe : ∀ p c n, (p, Node.folder) ∈ planDel src ld → fs0.get (r ++ (p ++ [c])) = some n → (fun _ => true) (p ++ [c]) = true :=
-    fun _ _ _ _ _ => rfl
+    ∃ fsk, runOps (fun f x => delOp f r x) fs0 done = .ok fsk ∧ Repairs vis fs0 fsk r src ls := by
   obtain ⟨fsk, hrun, hin, hout⟩ := run_dels_gen hw hs hsafe done rest [] fs0 (by simpa using hsplit) (by simp) (fun _ _ => rfl)
   simp only [List.nil_append] at hin
   obtain ⟨hroot, hclosed⟩ := dels_prefix_closed hw hs hsafe done rest hsplit fsk hin
-  refine ⟨fsk, hrun, repairs_of_closed hs hroot ?_ hclosed hout⟩
-  intro k hk
-  rw [hout _ (not_prefix_of_shorter r k hk)]; exact hw.rootAnc k hk
+  refine ⟨fsk, hrun, repairs_of_closed hs hroot ?_ hclosed hout ?_⟩
+  · intro k hk
+    rw [hout _ (not_prefix_of_shorter r k hk)]; exact hw.rootAnc k hk
+  · -- a visible folder of the crash state that must go was already one that must go, with the same contents
+    intro p c n hpne hv hg hsrc hc
+    have hpn : p ∉ done.map (·.1) := by
+      intro h; rw [hin p] at hg; simp [h] at hg
+    have hg0 : fs0.get (r ++ p) = some .folder := by rw [hin p] at hg; simpa [hpn] using hg
+    have hcn : (p ++ [c]) ∉ done.map (·.1) := by
+      intro h; rw [hin (p ++ [c])] at hc; simp [h] at hc
+    have hc0 : fs0.get (r ++ (p ++ [c])) = some n := by rw [hin (p ++ [c])] at hc; simpa [hcn] using hc
+    have hmem : (p, Node.folder) ∈ planDel src ld := by
+      refine mem_planDel.mpr ⟨(hw.listed _ _).mpr ⟨hpne, hv, hg0⟩, ?_⟩
+      simp only [needDel]
+      cases h2 : src p with
+      | none => rfl
+      | some e => cases e <;> simp_all [compatible]
+    exact hsafe p c n hmem hc0
 
-/-- **Recovery from a crash anywhere in the copy phase**: after all deletions and *any* prefix `done` of the planned
-creations, the same. -/
-theorem C08_recovery_from_crash_in_copy_phase {fs0 : FS} {r : FPath} {ld : List (FPath × Node)} {src : FPath → Option SEntry}
-    {ls : List (FPath × SEntry)} (hw : DestWF (fun _ => true) fs0 r ld) (hs : SrcWF (fun _ => true) src ls)
+/-- **Recovery from a crash anywhere in the copy phase** (with any filters): after all deletions and *any* prefix `done` of
+the planned creations, the same. -/
+theorem C08_recovery_from_crash_in_copy_phase {vis : FPath → Bool} {fs0 : FS} {r : FPath} {ld : List (FPath × Node)}
+    {src : FPath → Option SEntry} {ls : List (FPath × SEntry)} (hw : DestWF vis fs0 r ld) (hs : SrcWF vis src ls)
+    (hsafe : ∀ p c n, (p, Node.folder) ∈ planDel src ld → fs0.get (r ++ (p ++ [c])) = some n → vis (p ++ [c]) = true)
     (done rest : List (FPath × SEntry)) (hsplit : planCpy (fun p => fs0.get (r ++ p)) ls = done ++ rest) :
     ∃ fs1 fsk, runOps (fun f x => delOp f r x) fs0 (planDel src ld) = .ok fs1 ∧
-      runOps (fun f x => cpyOp f r x) fs1 done = .ok fsk ∧ Repairs fs0 fsk r src ls := by
-  have hsafe : ∀ p c n, (p, Node.folder) ∈ planDel src ld → fs0.get (r ++ (p ++ [c])) = some n → (fun _ => true) (p ++ [c]) = true :=
-    fun _ _ _ _ _ => rfl
+      runOps (fun f x => cpyOp f r x) fs1 done = .ok fsk ∧ Repairs vis fs0 fsk r src ls := by
   obtain ⟨fs1, hd, hd1, hd2⟩ := run_dels hw hs hsafe (planDel src ld) [] fs0 (by simp) (by simp) (fun _ _ => rfl)
   obtain ⟨fsk, hrun, hin, hout⟩ := run_cpys_gen hw hs done rest [] fs1 (by simpa using hsplit)
     (by intro q; simp only [List.map_nil, List.not_mem_nil, ↓reduceIte, afterDels]; exact hd1 q) hd2
   simp only [List.nil_append] at hin
   obtain ⟨hroot, hclosed⟩ := cpys_prefix_closed hw hs hsafe done rest hsplit fsk hin
-  refine ⟨fs1, fsk, hd, hrun, repairs_of_closed hs hroot ?_ hclosed hout⟩
-  intro k hk
-  rw [hout _ (not_prefix_of_shorter r k hk)]; exact hw.rootAnc k hk
+  refine ⟨fs1, fsk, hd, hrun, repairs_of_closed hs hroot ?_ hclosed hout ?_⟩
+  · intro k hk
+    rw [hout _ (not_prefix_of_shorter r k hk)]; exact hw.rootAnc k hk
+  · -- after the delete phase no visible folder is left that must go: the premise is contradictory
+    intro p c n hpne hv hg hsrc _
+    exfalso
+    rw [hin p] at hg
+    by_cases hpd : p ∈ done.map (·.1)
+    · simp only [hpd, ↓reduceIte] at hg
+      cases h2 : src p with
+      | none => simp [h2] at hg
+      | some e =>
+        cases e with
+        | folder => exact hsrc h2
+        | file b m => simp [h2, written] at hg
+        | link t => simp [h2, written] at hg
+    · simp only [hpd, ↓reduceIte, afterDels] at hg
+      by_cases hdel : p ∈ (planDel src ld).map (·.1)
+      · simp [hdel] at hg
+      · simp only [hdel, ↓reduceIte] at hg
+        apply hdel
+        refine List.mem_map.mpr ⟨(p, .folder), mem_planDel.mpr ⟨(hw.listed _ _).mpr ⟨hpne, hv, hg⟩, ?_⟩, rfl⟩
+        simp only [needDel]
+        cases h2 : src p with
+        | none => rfl
+        | some e => cases e <;> simp_all [compatible]
 
 end Rj.C08
